@@ -16,6 +16,12 @@ distinct cells, cut down to what still fits) is appended AFTER the value in the 
                                                          <Type>/[<ctor>.]<field path>/value-differs | missing-attribute |
                                                          unsigned-read-signed (got = expected - 2^k < 0)
   (3) leave exactly the tail in the slice                <Type>[/<ctor>]/consumed-too-much | consumed-too-little
+  (4) do all of this whatever other threads do with the library at the same time: two-threads-tx-parsers (enumerated) takes, for
+      every covered type x constructor (+ Transaction x each of the 7 descriptions, + mixed bags of the composite types), 3
+      different values built by that constructor, encodes them (+ tail) into cells one after the other, and lets 4 threads parse
+      these cells in tight loops at the same time (core.hammer, switch interval 1 us; nothing but the parser calls and the reading
+      of the result overlaps). Oracle: the fields and the remaining slice the same call yields alone.
+                                                         two-threads/<Type>[/<ctor>]
 A failure is attributed to the SMALLEST covered sub-value that also fails when encoded and parsed on its own (so that one
 defect of, say, TrComputePhase has one signature whether it is met inside a Transaction, an InMsg or alone).
 
@@ -63,6 +69,9 @@ RULE = ('tx half: case = (covered type, value, sentinel tail). Values come from 
         'combination of its optional (Maybe) fields, Transaction x each of the 7 descriptions x in_msg present/absent, plus '
         'all-min / all-max values and hash-chosen values of every type; tx-random draws type, value and tail from Hypothesis. '
         'The tail is 0, 1, 8, a random number or the maximal number of bits that still fit and 0..max references. '
+        'two-threads-tx-parsers: per covered type x constructor 3 hash-chosen values of that constructor (optional fields present in '
+        'some, absent in others), prepared as cells, parsed by 4 threads in tight loops at the same time; each parse compared with '
+        'the same parse made alone. '
         'non-trivial = uses a non-first constructor alternative, an optional field or non-empty dictionary, or an integer '
         'whose top bit is set; distinct = distinct case')
 
@@ -980,10 +989,118 @@ def enum_cases(tier):
                 pass
 
 
+# --------------------------------------------------------------------------------------------------
+# parsers called by several threads at the same time
+
+def _reading(tname, v, tail):
+    """('<Type>[/<ctor>]', thunk) - the thunk parses the prepared cell (value + tail) with the type's class and returns, as text,
+    every schema field read from the result and what is left in the slice; None when the value does not fit one cell"""
+    from harness.gen.dag import lib_from_rcell
+    t = getattr(X, tname)
+    try:
+        b = R.encode(t, v)
+    except R.ModelError as e:
+        if e.kind == 'domain':
+            raise ValueError(f'case outside the value domain of {tname}: {e}')
+        return None
+    if TYPES[tname][2]:
+        room_b, room_r = b.room()
+        b.put((tail.get('bits') or '')[:room_b])
+        for i in range(min(int(tail.get('nrefs') or 0), room_r)):
+            b.ref(SENT[i])
+    lc = lib_from_rcell(b.cell())
+    cls = _lib_class(tname)
+    exp = R.strip_either(v)
+    if tname == 'AccountBlock':
+        dt = X.AccountBlock.fields[1][1]
+        exp = dict(exp, transactions=aug_view(exp['transactions'], dt.n, dt.fork_extra))
+    ctor = v.get('_') if isinstance(v, dict) else None
+
+    def thunk():
+        cs = lc.begin_parse()
+        obj = cls.deserialize(cs)
+        return repr((to_value(obj, t, exp), cs.bits.to01(), len(cs.refs) - cs.ref_offset))
+    return (f'{tname}/{ctor}' if _multi(tname) else tname), thunk
+
+
+HAMMER_ROUNDS = {'Transaction': 12, 'AccountBlock': 8, 'InMsg': 12, 'OutMsg': 10, 'MsgEnvelope': 20, 'ShardAccount': 20,
+                 'Account': 20, 'TransactionDescr': 20}
+
+
+def check_hammer(case):
+    """several values, most of them of ONE covered type (and one constructor), are encoded into cells one after the other; then
+    4 threads parse these cells in tight loops at the same time (core.hammer: nothing but the parser calls overlaps). Every
+    call must return what the same call returns alone: the fields of ITS value, ITS tail left over."""
+    from harness.core import hammer
+    calls = []
+    for it in case['items']:
+        r = _reading(it['type'], it['v'], it.get('tail') or {})
+        if r is not None:
+            calls.append(r)
+    if len(calls) < 2:
+        return None
+    return hammer(calls, threads=4, rounds=case.get('rounds') or min(HAMMER_ROUNDS.get(it['type'], 40) for it in case['items']))
+
+
+def _hammer_items(label, tname, gt, k, budget):
+    items = []
+    for i in range(k):
+        ch = R.HashChooser(f'{label}/{i}')
+        try:
+            items.append(mk_case(ch, tname, gt, budget))
+        except R.ModelError:
+            try:
+                items.append(mk_case(SmallChooser(R.HashChooser(f'{label}/small/{i}')), tname, gt, 1))
+            except R.ModelError:
+                pass
+    return items
+
+
+def enum_hammer(tier):
+    """every covered type x every constructor alternative: 3 different values built by that constructor (every optional field
+    present in some, absent in others) - all threads are inside the SAME parser branch at the same time, with different field
+    values; then every description kind inside a Transaction, and mixed bags of the composite types"""
+    reps = 1 if tier == 'quick' else 6
+    for rep in range(reps):
+        for tname in TYPES:
+            for alt in _alts(getattr(S, tname)):
+                items = _hammer_items(f'c16tx-hammer/{rep}/{tname}/{alt.name}', tname, alt, 3, 2)
+                if len(items) >= 2:
+                    yield {'items': items}
+        for alt in S.TransactionDescr.alts:
+            d = derive(S.Transaction, {}, {'description': R.Ref(alt)})
+            items = _hammer_items(f'c16tx-hammer/{rep}/tx-descr/{alt.name}', 'Transaction', d, 3, 2)
+            if len(items) >= 2:
+                yield {'items': items}
+        for i in range(6):
+            ch = R.HashChooser(f'c16tx-hammer/{rep}/mixed/{i}')
+            items = []
+            for j in range(4):
+                tname = ch.choice(WEIGHTED)
+                items += _hammer_items(f'c16tx-hammer/{rep}/mixed/{i}/{j}', tname, getattr(S, tname), 1, 2)
+            if len(items) >= 2:
+                yield {'items': items}
+
+
+def classify_hammer(case):
+    out = ['hammer:parsers']
+    for it in case['items']:
+        out.append('type=' + it['type'])
+        if isinstance(it['v'], dict) and '_' in it['v']:
+            out.append('ctor=' + it['v']['_'])
+    out.append('same-type' if len({it['type'] for it in case['items']}) == 1 else 'mixed-types')
+    return out
+
+
 SUBCHECKS = [
     Sub('tx-enum', check_case, enum=enum_cases, classify=classify, nontrivial=nontrivial, shards=(16, 32),
         note='every covered type x constructor x combination of optional fields (values hash-chosen), Transaction x 7 '
              'descriptions x in_msg, msg_export_tr x envelope kind x 9 InMsg kinds, all-min / all-max values with empty, '
              'maximal and small tails'),
     Sub('tx-random', check_case, strategy=strat, classify=classify, nontrivial=nontrivial, n=(2000, 120000), shards=(16, 48)),
+    Sub('two-threads-tx-parsers', check_hammer, enum=enum_hammer, classify=classify_hammer, nontrivial=lambda case: True,
+        shards=(8, 16), case_cpu_s=120.0,
+        note='every covered type x constructor: 3 values of that constructor encoded into cells, then parsed by 4 threads in tight '
+             'loops at the same time (core.hammer, switch interval 1 us); Transaction x 7 descriptions; mixed bags of the composite '
+             'types. Oracle = the fields and the remaining slice each parse yields alone'),
 ]
